@@ -236,6 +236,12 @@ func (p *parser) parsePrefix(max int) (Expr, int) {
 	return p.parseApp(max)
 }
 
+// CoqReserved: the keywords of Gallina's term language; none of them can name a definition or be
+// referred to as an identifier (Coq reference manual, lexical conventions).
+var CoqReserved = map[string]bool{"as": true, "at": true, "cofix": true, "else": true, "end": true, "exists": true, "exists2": true, "fix": true,
+	"for": true, "forall": true, "fun": true, "if": true, "IF": true, "in": true, "let": true, "match": true, "mod": true, "Prop": true,
+	"return": true, "Set": true, "SProp": true, "then": true, "Type": true, "using": true, "where": true, "with": true}
+
 func (p *parser) atomStart() bool {
 	t := p.peek()
 	switch t.Kind {
@@ -243,6 +249,9 @@ func (p *parser) atomStart() bool {
 		switch t.Text {
 		case "in", "then", "else":
 			return false
+		}
+		if CoqReserved[t.Text] {
+			return false // a Gallina keyword cannot be used as an identifier
 		}
 		return true
 	case TString, TNum:
@@ -504,6 +513,9 @@ func parseSentence(toks []Token, src string) (s Sentence, err error) {
 		nt := p.next()
 		if nt.Kind != TIdent && !(nt.Kind == TPunct && nt.Text == "_") {
 			return s, &ParseError{nt.Line, "Definition without a valid name: " + nt.Text}
+		}
+		if CoqReserved[nt.Text] || nt.Text == "_" {
+			return s, &ParseError{nt.Line, "Definition named with a reserved word of Gallina (or the wildcard): " + nt.Text}
 		}
 		s.Name = nt.Text
 		for p.isP("(") { // type parameters (T:ty)
